@@ -195,6 +195,35 @@ DEFAULT_ARGS = ('-E -d 0 -a 0.0001 -b 10000 -e 1 -f 1 '
 """Default Adaptor Grammar parameters"""
 
 
+def _get_int_option(args, option):
+    """Returns the value of an integer `option` of the AG program
+
+    The `args` string is split in arguments as the shell does, and the
+    arguments are looked at one by one, so that a file name containing
+    '-n' is not taken for the option '-n'. The `option` is given as
+    '-n 10' or '-n10' and, when it is repeated, the last one wins (as
+    in the AG program). Returns None if the `option` is not in `args`.
+
+    Raises a ValueError if the option value is not a positive integer.
+
+    """
+    value = None
+    arguments = shlex.split(args)
+    for n, arg in enumerate(arguments):
+        if arg == option:
+            value = arguments[n+1] if n + 1 < len(arguments) else ''
+        elif re.fullmatch(option + '[0-9]+', arg):
+            value = arg[len(option):]
+
+    if value is None:
+        return None
+    if not re.fullmatch('[0-9]+', value):
+        raise ValueError(
+            'option {} must be a positive integer, it is "{}"'.format(
+                option, value))
+    return int(value)
+
+
 def _setup_seed(args, nruns):
     """Setup a unique seed for each run in `args`
 
@@ -203,17 +232,26 @@ def _setup_seed(args, nruns):
     with a different random seed.
 
     """
-    new = [args] * nruns
-    for run in range(nruns):
-        if '-r' in args:
-            # extract the seed from the arguments string
-            seed = int(re.sub(r'^.*\-r *([0-9]+).*$', r'\g<1>', args))
+    seed = _get_int_option(args, '-r')
+    if seed is None:
+        return [args + ' -r {}'.format(random.randint(0, 2**16))
+                for _ in range(nruns)]
 
-            # setup new seed for each run
-            new[run] = re.sub(
-                r'\-r *([0-9]+)', '-r {}'.format(seed + run), args)
-        else:
-            new[run] = args + ' -r {}'.format(random.randint(0, 2**16))
+    new = []
+    for run in range(nruns):
+        # setup new seed for each run, the other arguments are quoted
+        # back for the shell
+        run_args = []
+        arguments = iter(shlex.split(args))
+        for arg in arguments:
+            if arg == '-r':
+                next(arguments)  # the seed
+                run_args += ['-r', str(seed + run)]
+            elif re.fullmatch('-r[0-9]+', arg):
+                run_args += ['-r', str(seed + run)]
+            else:
+                run_args.append(shlex.quote(arg))
+        new.append(' '.join(run_args))
     return new
 
 
@@ -662,12 +700,12 @@ def segment(text, train_text=None, grammar_file=None, category='Colloc0',
 
     # setup ignore_first_parses and make sure ignore_first_parses <=
     # niterations
-    niterations = 2000  # the default values fixed in C++
-    interval = 1
-    if '-n' in args:
-        niterations = int(re.sub(r'^.*\-n *([0-9]+).*$', r'\g<1>', args))
-    if '-x' in args:
-        interval = int(re.sub(r'^.*\-x *([0-9]+).*$', r'\g<1>', args))
+    niterations = _get_int_option(args, '-n')
+    if niterations is None:
+        niterations = 2000  # the default values fixed in C++
+    interval = _get_int_option(args, '-x')
+    if interval is None:
+        interval = 1
     # the program outputs a parse at each iteration i in [0, niterations)
     # such that i % interval == 0, and a final one at the end
     nparses = len(range(0, niterations, interval)) + 1
@@ -682,7 +720,7 @@ def segment(text, train_text=None, grammar_file=None, category='Colloc0',
     # ith run. Else put a random seed to each run.
     args = _setup_seed(args, nruns)
     log.info('random seeds are: %s', ', '.join(
-        [arg.split('-r ')[1].split(' ')[0] for arg in args]))
+        str(_get_int_option(arg, '-r')) for arg in args))
 
     # we write the grammar in a temp file, automatically erased when done
     with tempfile.NamedTemporaryFile(dir=tempdir) as grammar_temp:
